@@ -544,21 +544,35 @@ Fixpoint abandon_all (f : N -> stream -> option (list cact)) (l : list (N * stre
     end
   end.
 
-(* handleFrame; None = nil dereference *)
-Definition sm_frame (client : bool) (st : sm) (isreq : bool) (f : dframe) : option (sm * list cact) :=
+(* what a frame on stream sid does to that stream's map entry *)
+Inductive upd := UKeep | USet (s : stream) | UDel.
+
+Definition apply_upd (sid : N) (u : upd) (l : list (N * stream)) : list (N * stream) :=
+  match u with UKeep => l | USet v => m_set sid v l | UDel => m_del sid l end.
+
+Definition close_upd (r : option (option stream * list cact)) (pre : list cact) : option (upd * list cact) :=
+  match r with
+  | None => None
+  | Some (Some s2, a) => Some (USet s2, pre ++ a)
+  | Some (None, a) => Some (UDel, pre ++ a)
+  end.
+
+(* handleFrame for HEADERS / DATA / RST_STREAM, as a function of the stream's entry g = c.streams[sid]
+   and maxStreamID; None = nil dereference *)
+Definition sm_local (g : option stream) (max : N) (isreq : bool) (f : dframe) : option (upd * list cact) :=
   match f with
   | FHeaders sid es fs =>
     (* getStreamLocked *)
     let found :=
-      match m_get sid (m_streams st) with
+      match g with
       | Some s => Some (s, false, [])
       | None =>
         if negb isreq then None
-        else if negb (m_max st =? 0) && (m_max st <? sid) then None
+        else if negb (max =? 0) && (max <? sid) then None
         else Some (new_stream fs, true, [CNew (test_name fs)])
       end in
     match found with
-    | None => Some (st, [])
+    | None => Some (UKeep, [])
     | Some (s, isnew, acts0) =>
       let s1 :=
         if isnew then Some (s, [])
@@ -590,18 +604,13 @@ Definition sm_frame (client : bool) (st : sm) (isreq : bool) (f : dframe) : opti
       match s1 with
       | None => None
       | Some (s1, acts1) =>
-        if es then
-          match close_stream sid s1 isreq ENil with
-          | None => None
-          | Some (Some s2, acts2) => Some (mkSM (m_set sid s2 (m_streams st)) (m_max st), acts0 ++ acts1 ++ acts2)
-          | Some (None, acts2) => Some (mkSM (m_del sid (m_streams st)) (m_max st), acts0 ++ acts1 ++ acts2)
-          end
-        else Some (mkSM (m_set sid s1 (m_streams st)) (m_max st), acts0 ++ acts1)
+        if es then close_upd (close_stream sid s1 isreq ENil) (acts0 ++ acts1)
+        else Some (USet s1, acts0 ++ acts1)
       end
     end
   | FData sid es data =>
-    match m_get sid (m_streams st) with
-    | None => Some (st, [])
+    match g with
+    | None => Some (UKeep, [])
     | Some s =>
       let '(s1, evs) :=
         if isreq then match dt_trace (s_req s) data with (d, evs) => (mkS (s_b s) d (s_got s) (s_resp s), evs) end
@@ -609,33 +618,42 @@ Definition sm_frame (client : bool) (st : sm) (isreq : bool) (f : dframe) : opti
       match b_adds (s_b s1) evs with
       | (b, done) =>
         let s2 := mkS b (s_req s1) (s_got s1) (s_resp s1) in
-        let acts1 := completes sid done in
-        if es then
-          match close_stream sid s2 isreq ENil with
-          | None => None
-          | Some (Some s3, acts2) => Some (mkSM (m_set sid s3 (m_streams st)) (m_max st), acts1 ++ acts2)
-          | Some (None, acts2) => Some (mkSM (m_del sid (m_streams st)) (m_max st), acts1 ++ acts2)
-          end
-        else Some (mkSM (m_set sid s2 (m_streams st)) (m_max st), acts1)
+        if es then close_upd (close_stream sid s2 isreq ENil) (completes sid done)
+        else Some (USet s2, completes sid done)
       end
     end
   | FRst sid code =>
-    match m_get sid (m_streams st) with
-    | None => Some (st, [])
-    | Some s =>
-      match close_stream sid s isreq (EStream code) with
-      | None => None
-      | Some (Some s2, acts) => Some (mkSM (m_set sid s2 (m_streams st)) (m_max st), acts)
-      | Some (None, acts) => Some (mkSM (m_del sid (m_streams st)) (m_max st), acts)
-      end
+    match g with
+    | None => Some (UKeep, [])
+    | Some s => close_upd (close_stream sid s isreq (EStream code)) []
     end
+  | _ => Some (UKeep, [])
+  end.
+
+Definition fsid (f : dframe) : option N :=
+  match f with
+  | FHeaders s _ _ | FData s _ _ | FRst s _ => Some s
+  | _ => None
+  end.
+
+(* handleFrame; None = nil dereference *)
+Definition sm_frame (client : bool) (st : sm) (isreq : bool) (f : dframe) : option (sm * list cact) :=
+  match f with
   | FGoAway last code =>
     (* setMaxStreamIDLocked *)
     match abandon_all (fun k s => abandon_resp k s (EConn code)) (filter (fun e => last <? fst e) (m_streams st)) with
     | None => None
     | Some acts => Some (mkSM (filter (fun e => negb (last <? fst e)) (m_streams st)) last, acts)
     end
-  | FOther => Some (st, [])
+  | _ =>
+    match fsid f with
+    | None => Some (st, [])
+    | Some sid =>
+      match sm_local (m_get sid (m_streams st)) (m_max st) isreq f with
+      | None => None
+      | Some (u, acts) => Some (mkSM (apply_upd sid u (m_streams st)) (m_max st), acts)
+      end
+    end
   end.
 
 (* cancelAll *)
